@@ -113,22 +113,73 @@ def replay(pid, path):
 
     rep = json.load(open(path))
     spec = rep["spec"]
-    lines = R.execute(spec)
+    clause = rep["clause"]
+    kind = spec.get("kind", "history")
+    lines, module, names = [], "MhlHistoryTrace", []
+    if kind == "history" and "variants" in spec:                      # C13 group of environments
+        from . import envcheck as E
+        specs = []
+        for j, v in enumerate(spec["variants"]):
+            s = json.loads(json.dumps({k: spec[k] for k in spec if k != "variants"}))
+            s["tid"], s["group"], s["env_obs"] = "replay-g0-v%d" % j, "replay-g0", True
+            s["world"].update(v)
+            specs.append(s)
+        lines, errs, _ = E.run_groups(specs, nproc=1)
+        module = "MhlEnv"
+    elif kind == "history":
+        lines = R.execute(spec)
+        names = sorted({a for p in spec["world"]["files"] + spec["world"]["dirs"] for a in p})
+    elif kind == "crash":
+        from . import commitcheck as CC
+        for buffered in (False, True):
+            ref = CC.reference_run(spec["layout"], spec["prior"], spec.get("names", "plain"), buffered=buffered)
+            if spec["k"] < ref["n"]:
+                lines.append(CC.crash_case((spec["layout"], spec["prior"], spec.get("names", "plain"), spec["k"], spec["mode"], ref)))
+        module = "MhlCommitTrace"
+    elif kind == "tamper":
+        from . import commitcheck as CC
+        lines = [ln for ln in CC.tamper_case((0, {"st": spec["state"]}, spec["edit"], "plain", 0)) if ln["cmd"] == spec["cmd"] and ln["R"] == spec["R"]]
+        module = "MhlTamperTrace"
+    elif kind == "xml":
+        from . import xmlcheck as X
+        lines = [X.run_case((spec.get("k", 0), spec["doc"], spec.get("seed", 0)))]
+        module = "MhlXmlTrace"
+    elif kind == "time":
+        from . import timecheck as T
+        lines = [T.run_cell((spec["zone"], spec["t"], spec["now"], spec["size"], 0))]
+        module = "MhlTimeTrace"
+    elif kind == "hash":
+        from . import hashcheck as HC
+        lines = [HC.run_case((spec.get("k", 0), spec["len"], spec["fmts"], spec["ep"], spec.get("seed", 0)))]
+        module = "MhlHasherTrace"
+    elif kind == "codec":
+        from . import hashcheck as HC
+        r = HC.codec_case(int(spec["value_hex"], 16))
+        print("value %s -> %s encode_ok=%s decode_ok=%s" % (spec["value_hex"], r["text"], r["enc_ok"], r["dec_ok"]))
+        bad = not (r["enc_ok"] and r["dec_ok"] and r["len_ok"])
+        if bad:
+            print("VIOLATION property=%s replay=%s clause=%s" % (pid, path, clause))
+        return 1 if bad else 0
+    elif kind == "update":
+        from . import updatecheck as UC
+        inv = {v: k for k, v in UC.VERSION_CLASS.items()}
+        lines = [UC.run_case((0, spec["group"].split(" ")[0], spec["server"], spec["version"] if spec["version"] in UC.VERSIONS else inv.get(spec["version"], "newer"),
+                              spec["timing"] if spec["timing"] in UC.TIMINGS else "before", spec["cmd"]))]
+        module = "MhlUpdaterTrace"
     for ln in lines:
         if "harness_error" in ln:
             print(ln["harness_error"])
             return 2
-    names = sorted({a for p in spec["world"]["files"] + spec["world"]["dirs"] for a in p})
-    verdicts, diags = validate.validate(lines, names, shards=1, tag="replay")
+    verdicts, diags = validate.validate(lines, names, trace_module=module, shards=1, tag="replay")
     bad = False
     for ln in lines:
         v = verdicts.get((ln["tid"], ln["i"]), {})
-        val = v.get(rep["clause"])
-        print("step %d op=%s exit=%s %s=%s" % (ln["i"], json.dumps(ln["op"], sort_keys=True), ln["exit"], rep["clause"], val))
+        val = v.get(clause)
+        print("%s step %s op=%s exit=%s %s=%s" % (ln["tid"], ln["i"], json.dumps(ln.get("op", ln.get("cmd", "")), sort_keys=True)[:160], ln.get("exit"), clause, val))
         if val is False:
             bad = True
     if bad:
-        print("VIOLATION property=%s replay=%s clause=%s" % (pid, path, rep["clause"]))
+        print("VIOLATION property=%s replay=%s clause=%s" % (pid, path, clause))
         return 1
     return 0
 
